@@ -3,6 +3,7 @@ pub mod json;
 pub mod panics;
 pub mod pool;
 pub mod rng;
+pub mod shard;
 
 #[derive(Clone, Copy, Debug, PartialEq, Eq)]
 pub enum Tier {
